@@ -275,7 +275,8 @@ class ScriptProc(CompartmentedModel):
         elif op == 'ADDNODE': self.addNode(a[1], c=None if a[2] is None else self.cname(a[2]))
         elif op == 'RMNODE': self.removeNode(a[1])
         elif op == 'ADDEDGE': self.addEdge(a[1], a[2])
-        elif op == 'RMEDGE': self.removeEdge(a[1], a[2])
+        elif op == 'RMEDGE':
+            if self.network().has_edge(a[1], a[2]): self.removeEdge(a[1], a[2])        # (a handler may find the edge already gone)
         else: raise ValueError(op)
 
     def run_acts(self, acts, t, e):
